@@ -374,6 +374,15 @@ def brute_gcd(gaps):
     return best
 
 
+def month_lag(start, stop):
+    """dev_lag_months as documented, from the dates alone (float arithmetic in the documented order)"""
+    import calendar
+
+    sf = start.day / calendar.monthrange(start.year, start.month)[1]
+    ef = stop.day / calendar.monthrange(stop.year, stop.month)[1]
+    return 12 * (stop.year - start.year) + (stop.month - start.month) - sf + ef
+
+
 def py_eq(a, b):
     return type(a) is type(b) and a == b or (a == b)
 
@@ -423,6 +432,20 @@ def oracles(o):
         lm = sorted({mid(c.evaluation_date) - mid(c.period_end) for c in cells})
         v = val("lags_month")
         chk("dev_lags(month)", v is not None and list(v) == lm, f"got {v} want {lm}")
+    # every cell's own development lag, recomputed from its dates (month: the documented fractional-month
+    # formula 12*dy + dm - day/len(start month) + day/len(stop month); day: difference of ordinals)
+    for c in cells:
+        want_m, got_m = month_lag(c.period_end, c.evaluation_date), attempt(lambda: c.dev_lag("month"))
+        if got_m != ("ok", want_m) or type(got_m[1]) is not float:
+            bad.append(("dev_lags(month)", f"cell {c.period_end}/{c.evaluation_date}: dev_lag('month') = {got_m[1]!r}, dates give {want_m!r}"))
+            break
+        got_d = attempt(lambda: c.dev_lag("day"))
+        if got_d != ("ok", c.evaluation_date.toordinal() - c.period_end.toordinal()):
+            bad.append(("dev_lags(day)", f"cell {c.period_end}/{c.evaluation_date}: dev_lag('day') = {got_d[1]!r}"))
+            break
+    lmf = sorted({month_lag(c.period_end, c.evaluation_date) for c in cells})
+    v = val("lags_month")
+    chk("dev_lags(month)", v is not None and list(v) == lmf, f"got {v} want {lmf}")
     names = []
     for c in cells:
         for f in c.values:
@@ -529,6 +552,19 @@ def oracles(o):
         chk("is_regular(month)", rm == (disjoint_true and eq_m and const_m), f"got {rm}; lags {lm}")
         chk("nesting", (not rm or sm) and (not sm or dj), "regular -> semi-regular -> disjoint violated (month)")
     chk("nesting", (not rd or sd) and (not sd or dj), "regular -> semi-regular -> disjoint violated (day)")
+    # month unit on EVERY triangle (also with evaluation dates / period ends off the month ends): equal
+    # fractional-month period lengths, constant spacing of the fractional-month lags
+    eq_mf = len({month_lag(p[0] - ONE, p[1]) for p in per}) <= 1
+    smf = val("semi_month")
+    chk("is_semi_regular(month)", smf == (disjoint_true and eq_mf), f"got {smf}; disjoint {disjoint_true}, equal month lengths {eq_mf}")
+    if len(lmf) <= 1:
+        const_mf = True
+    else:
+        off = lmf[1] - lmf[0]
+        const_mf = all(b - a == off for a, b in zip(lmf[1:-1], lmf[2:]))
+    rmf = val("reg_month")
+    chk("is_regular(month)", rmf == (disjoint_true and eq_mf and const_mf), f"got {rmf}; month lags {lmf}")
+    chk("nesting", (not rmf or smf) and (not smf or dj), "regular -> semi-regular -> disjoint violated (month, any dates)")
     # resolutions
     k, pres = o["period_resolution"]
     if empty:
@@ -586,6 +622,20 @@ def directed():
     m3 = Metadata(country="US", currency=None, details={"lob": "auto"}, loss_details={})
     for ms in ([m1, m2], [m1, m2, m3], [m3, m1]):
         out.append((f"meta-{len(ms)}", Triangle([mk(D(2020, 1, 1), D(2020, 3, 31), D(2020, 3, 31), m=m) for m in ms])))
+    # near-month-end dates: 28 Feb of a leap year is NOT a month end, 29 Feb is; 30th of a 31-day month is not
+    for nm, pe, evs in [
+        ("feb28-leap-eval", D(2024, 1, 31), [D(2024, 1, 31), D(2024, 2, 28), D(2024, 3, 31), D(2024, 4, 30)]),
+        ("feb29-leap-eval", D(2024, 1, 31), [D(2024, 1, 31), D(2024, 2, 29), D(2024, 3, 31), D(2024, 4, 30)]),
+        ("feb28-common-eval", D(2023, 1, 31), [D(2023, 1, 31), D(2023, 2, 28), D(2023, 3, 31), D(2023, 4, 30)]),
+        ("day30-of-31-eval", D(2024, 4, 30), [D(2024, 4, 30), D(2024, 5, 30), D(2024, 6, 30), D(2024, 7, 31)]),
+        ("feb28-2000-eval", D(2000, 1, 31), [D(2000, 1, 31), D(2000, 2, 28), D(2000, 3, 31)]),
+        ("feb28-1900-eval", D(1900, 1, 31), [D(1900, 1, 31), D(1900, 2, 28), D(1900, 3, 31)]),
+    ]:
+        out.append((nm, Triangle([mk(D(pe.year, 1 if pe.month == 1 else pe.month, 1), pe, e) for e in evs])))
+    # period END on 28 Feb of a leap year
+    out.append(("feb28-leap-period-end", Triangle([mk(D(2024, 2, 1), D(2024, 2, 28), e)
+                                                   for e in (D(2024, 2, 28), D(2024, 3, 31), D(2024, 4, 30))]
+                                                  + [mk(D(2024, 3, 1), D(2024, 3, 31), D(2024, 4, 30))])))
     out.append(("samples-bad", Triangle([mk(D(2020, 1, 1), D(2020, 3, 31), D(2020, 3, 31), {"a": np.array([1, 2])}),
                                          mk(D(2020, 1, 1), D(2020, 3, 31), D(2020, 6, 30), {"a": np.array([1, 2, 3])})])))
     return out
